@@ -53,6 +53,14 @@ func verifNewContext() *BrokerContext {
 var verifCounters = map[*prometheus.MetricVec]*roundedCounter{}
 
 func verifGetMetricWith(v *prometheus.MetricVec, labels prometheus.Labels) (prometheus.Metric, error) {
+	// C19: a count is published under the label combination of its own event - the "nat" label
+	// carries a NAT type and the "type" label a proxy type, never the other way round
+	if n, has := labels["nat"]; has {
+		verifapi.Assert(n == "restricted" || n == "unrestricted" || n == "unknown", "C19: the nat label of a published count carries the event's NAT type")
+	}
+	if t, has := labels["type"]; has {
+		verifapi.Assert(t == "standalone" || t == "webext" || t == "badge" || t == "iptproxy" || t == "unknown", "C19: the type label of a published count carries the event's proxy type")
+	}
 	c, ok := verifCounters[v]
 	if !ok {
 		c = &roundedCounter{}
